@@ -1,5 +1,6 @@
 (* Correspondence for C13 (peer/derive.go) and C14 (util/extra25519). *)
 From Bifrost Require Import Lib.Base Lib.Sym Lib.SigSym Derive.Model.
+From Bifrost Require Export Lib.SigPatt.
 
 (* ---- C14 ---- *)
 
